@@ -12,7 +12,7 @@ ASSUMPTIONS = ["integer positions are in range (the statement does not promise r
 ANCHORS = ["runlengtharray.py::RunLengthArray._get_position", "runlengtharray.py::RunLengthArray._get_slice", "runlengtharray.py::RunLengthArray._start_to_end",
            "runlengtharray.py::RunLengthArray._step_subset", "runlengtharray.py::RunLengthArray._getitem_bool", "runlengtharray.py::RunLengthArray._ragged_slice",
            "runlengtharray.py::RunLengthArray.__getitem__", "mixin.py::NPSIndexable.__getitem__"]
-KINDS = ["int", "list", "array", "boolarray", "rlmask", "cmpmask", "slice", "windows"]
+KINDS = ["int", "list", "array", "boolarray", "boollist", "rlmask", "cmpmask", "slice", "windows"]
 FLOOR_TAGS = ["k:" + k for k in KINDS] + ["step:+1", "step:+k", "step:-1", "step:-k", "bounds:oob", "bounds:in", "result:empty", "mask:allfalse", "mask:alltrue", "int:negative",
                                           "kind:b", "kind:i", "kind:u", "kind:f"]
 FLOOR_MONITORS = ["c15:compare", "c15:canonical", "inv:rla"]
@@ -53,10 +53,11 @@ def run(case):
         a = attempt(lambda: r[q])
         dec = np.asarray
         want = "dense"
-    elif kind == "boolarray":
+    elif kind in ("boolarray", "boollist"):
         m = np.array(idx, dtype=bool)
         exp = v[m]
-        a = attempt(lambda: r[m])
+        mm = m if kind == "boolarray" else [bool(b) for b in idx]
+        a = attempt(lambda: r[mm])
         dec = np.asarray
         want = "dense"
     elif kind in ("rlmask", "cmpmask"):
@@ -147,7 +148,7 @@ def gen_case(rng, tier, kind=None, dtype=None):
         return c
     if kind in ("list", "array"):
         return mk_case(dtype, vals, kind, [rng.randint(-L, L - 1) for _ in range(rng.randint(1, 7))])
-    if kind in ("boolarray", "rlmask"):
+    if kind in ("boolarray", "boollist", "rlmask"):
         p = rng.choice([0.0, 0.5, 0.5, 1.0])
         if kind == "rlmask" and rng.random() < 0.6:
             m = np.resize(rl.gen_runs(rng, "bool", "small", L)[0], L).astype(bool).tolist()
